@@ -369,6 +369,29 @@ def merge_cases_decoy_payload():
         yield {'ro': ro, 'msg': to_text(doc), 'meta': dict(meta, cls=cls, n=2, layout='decoy-payload', para='decoy-payload')}
 
 
+SPECIAL_STORY_IDS = ["O'NEIL;2", 'a"b', 'x]y[z', 'a/b.c', '*']      # IDs are free text
+SPECIAL_ITEM_IDS = ["Jo's clip", 'i[1]', '@id', 'a=b']
+
+
+def merge_cases_special_ids():
+    """IDs with characters that mean something in path / predicate / regular-expression syntax"""
+    sids = SPECIAL_STORY_IDS[:3]
+    ro = to_text(make_ro(sids, layout='plain', items={s: SPECIAL_ITEM_IDS[:3] for s in sids}))
+    for cls, doc, meta in story_level_messages(sids[:2], max_src=2, full_refs=False):
+        yield {'ro': ro, 'msg': to_text(doc), 'meta': dict(meta, cls=cls, n=3, layout='special-ids')}
+    for cls, doc, meta in item_level_messages([sids[1]], SPECIAL_ITEM_IDS[:2], max_src=2):
+        yield {'ro': ro, 'msg': to_text(doc), 'meta': dict(meta, cls=cls, n=3, para='special-ids')}
+    # the odd ID named but absent, in k-th position of a delete
+    plain = to_text(make_ro(['A', 'B', 'C'], layout='plain'))
+    for ids in (["O'NEIL"], ['A', "O'NEIL"], ['A', 'B', "it's"], ["x'y", 'A']):
+        yield {'ro': plain, 'msg': to_text(story_delete(5, ids)), 'meta': {'cls': 'StoryDelete', 'n': 3, 'layout': 'special-ids', 'ids': ids}}
+        yield {'ro': plain, 'msg': to_text(element_action(5, 'DELETE', None, [[ref('storyID', i) for i in ids]])),
+               'meta': {'cls': 'EAStoryDelete', 'n': 3, 'layout': 'special-ids', 'ids': ids}}
+        yield {'ro': plain, 'msg': to_text(item_delete(5, 'A', ['i1'] + ids)), 'meta': {'cls': 'ItemDelete', 'n': 3, 'para': 'special-ids', 'ids': ids}}
+        yield {'ro': plain, 'msg': to_text(element_action(5, 'DELETE', [ref('storyID', 'A')], [[ref('itemID', i) for i in ['i1'] + ids]])),
+               'meta': {'cls': 'EAItemDelete', 'n': 3, 'para': 'special-ids', 'ids': ids}}
+
+
 def merge_cases_other():
     for n in (0, 2):
         for layout in ('plain', 'trailing'):
@@ -511,3 +534,106 @@ def vary_envelope(rng, text, prob=0.25):
     else:
         root.insert(0, ET.Element('mosExtra'))
     return ET.tostring(root, encoding='unicode')
+
+
+# ---- structural mutation of documents ------------------------------------------------
+# The generators above produce the shapes I thought of.  The operators below derive, from any document,
+# neighbours I did not think of: an element duplicated, dropped, moved, nested one level deeper, given an
+# attribute / text / tail, an ID blanked, padded, or swapped for another ID that occurs in the pair.
+# The model is defined on arbitrary element trees, so the correspondence must hold on all of them.
+
+MUTATIONS = ['dup-elem', 'drop-elem', 'move-elem', 'nest-copy', 'wrap', 'attr', 'text', 'tail', 'blank-id', 'pad-id', 'swap-id',
+             'dup-id-tag', 'rename-id-case', 'empty-elem']
+ID_TAGS = ('storyID', 'itemID', 'roID', 'messageID')
+
+
+def _elems(root):
+    """(parent, index, element) for every element below the root"""
+    return [(p_, i, c) for p_ in root.iter() for i, c in enumerate(list(p_))]
+
+
+def mutate_doc(rng, text, other_text=None, n=1):
+    """n random structural mutations of the document; other_text supplies IDs to swap in.
+    messageID and the classifying element are left alone so that the result is still a message of the same kind
+    (most of the time)."""
+    import copy
+    from xml.etree import ElementTree as ET
+    try:
+        root = ET.fromstring(text)
+    except ET.ParseError:
+        return text
+    ids = [e.text for e in root.iter() if e.tag in ('storyID', 'itemID') and e.text]
+    if other_text:
+        try:
+            ids += [e.text for e in ET.fromstring(other_text).iter() if e.tag in ('storyID', 'itemID') and e.text]
+        except ET.ParseError:
+            pass
+    for _ in range(n):
+        els = [(p_, i, c) for p_, i, c in _elems(root) if c.tag != 'messageID' and p_ is not root]
+        if not els:
+            break
+        p_, i, c = rng.choice(els)
+        op = rng.choice(MUTATIONS)
+        if op == 'dup-elem':
+            p_.insert(i + rng.randrange(0, 2), copy.deepcopy(c))
+        elif op == 'drop-elem':
+            del p_[i]
+        elif op == 'move-elem':
+            del p_[i]
+            p_.insert(rng.randrange(0, len(p_) + 1), c)
+        elif op == 'nest-copy':
+            # a copy of the element one or two levels further down, inside something that takes free content
+            hosts = [e for e in root.iter() if e.tag in ('mosPayload', 'item', 'story', 'p')] or [c]
+            host = rng.choice(hosts)
+            host.append(E('nested', copy.deepcopy(c)) if rng.random() < 0.5 else copy.deepcopy(c))
+        elif op == 'wrap':
+            del p_[i]
+            p_.insert(i, E('wrapper', c))
+        elif op == 'attr':
+            c.set(rng.choice(['kind', 'rev', 'operation', 'id']), rng.choice(['x', '', 'MOVE', ' spaced ']))
+        elif op == 'text':
+            if len(c):
+                c.text = rng.choice([None, ' ', '\n   ', 'text'])
+        elif op == 'tail':
+            c.tail = rng.choice([None, ' ', '\n', 'tail'])
+        else:
+            idels = [e for e in root.iter() if e.tag in ('storyID', 'itemID')]
+            if not idels:
+                continue
+            e = rng.choice(idels)
+            if op == 'blank-id':
+                e.text = None
+            elif op == 'pad-id':
+                e.text = rng.choice([' %s', '%s ', '\n  %s\n', '%s ']) % (e.text or '')
+            elif op == 'swap-id' and ids:
+                e.text = rng.choice(ids)
+            elif op == 'dup-id-tag':
+                for p2 in root.iter():
+                    kids = list(p2)
+                    if e in kids:
+                        p2.insert(kids.index(e) + 1, copy.deepcopy(e))
+                        break
+            elif op == 'rename-id-case' and e.text:
+                e.text = e.text.swapcase()
+            elif op == 'empty-elem':
+                for ch in list(e):
+                    e.remove(ch)
+                e.text = ''
+    return ET.tostring(root, encoding='unicode')
+
+
+def fuzzed_cases(cases, rng, n_cases, which=('msg', 'ro')):
+    """structural neighbours of a sample of merge cases"""
+    cases = list(cases)
+    if not cases:
+        return
+    for _ in range(n_cases):
+        c = dict(rng.choice(cases))
+        k = rng.choice(which)
+        other = c['ro'] if k == 'msg' else c['msg']
+        c[k] = mutate_doc(rng, c[k], other, n=rng.randrange(1, 4))
+        if rng.random() < 0.2:
+            k2 = 'ro' if k == 'msg' else 'msg'
+            c[k2] = mutate_doc(rng, c[k2], c[k], n=1)
+        c['meta'] = dict(c.get('meta', {}), layout='fuzzed', para='fuzzed')
+        yield c
